@@ -109,7 +109,8 @@ class Ctx:
             return
         if t is False:
             t = z3.BoolVal(False)
-        if z3.is_and(t) and not _has_quant(t):
+        if z3.is_and(t):
+            # conjunct by conjunct: the quantifier-free ones also reach the quick feasibility solver
             for c in t.children():
                 self.assume(c)
             return
